@@ -63,6 +63,7 @@ Fixpoint ideqb (a b : item) {struct a} : bool :=
   end.
 
 Definition mem (x : item) (l : list item) : bool := existsb (ieqb x) l.
+Definition id_of_pre (o : item) : Z := match o with Nd i _ _ _ _ => i | _ => 0 end.
 
 (** * Node classes *)
 Definition K_Section := 0.        Definition K_Associate := 1.     Definition K_Loop := 2.
@@ -86,15 +87,15 @@ Definition kind_disp (k : Z) : disp :=
   else DLeaf.
 
 (** what the constructor (pydantic "before" validators + field types) does to each traversable argument *)
-Inductive snorm := NId | NSanNodes | NSan | NNest.
+Inductive snorm := NId | NSanNodes | NSan | NNest | NReq | NTupNodes | NTupTupNodes.
 Definition kind_slots (k : Z) : list snorm :=
   if k =? K_Section then [NSanNodes] else if k =? K_Associate then [NSanNodes; NId]
-  else if k =? K_Loop then [NId; NId; NSanNodes] else if k =? K_WhileLoop then [NId; NSanNodes]
-  else if k =? K_Conditional then [NId; NSanNodes; NSanNodes] else if k =? K_PragmaRegion then [NSanNodes]
-  else if k =? K_Interface then [NSan] else if k =? K_Assignment then [NId; NId]
-  else if k =? K_CallStatement then [NId; NSan; NNest] else if k =? K_MultiConditional then [NId; NNest; NNest; NSanNodes]
+  else if k =? K_Loop then [NReq; NReq; NSanNodes] else if k =? K_WhileLoop then [NId; NSanNodes]
+  else if k =? K_Conditional then [NReq; NSanNodes; NSanNodes] else if k =? K_PragmaRegion then [NSanNodes]
+  else if k =? K_Interface then [NSan] else if k =? K_Assignment then [NReq; NReq]
+  else if k =? K_CallStatement then [NReq; NSan; NNest] else if k =? K_MultiConditional then [NReq; NNest; NNest; NSanNodes]
   else if k =? K_TypeDef then [NSanNodes] else if k =? K_Forall then [NId; NId; NSanNodes]
-  else if k =? K_MaskedStatement then [NId; NId; NId] else if k =? K_Allocation then [NId; NId; NId]
+  else if k =? K_MaskedStatement then [NId; NTupTupNodes; NTupNodes] else if k =? K_Allocation then [NId; NId; NId]
   else [].
 
 (** * Python helpers *)
@@ -139,6 +140,17 @@ Definition norm_slot (n : snorm) (x : item) : option item :=
   | NSan => Some (Tup (sanitize x))
   | NSanNodes => let l := sanitize x in if forallb is_nd l then Some (Tup l) else None
   | NNest => Some (Tup (map (fun p => Tup (sanitize p)) (as_tuple x)))
+  | NReq => if is_none x then None else Some x
+  | NTupNodes => match x with
+                 | NoneI => Some x
+                 | Tup l => if forallb is_nd l then Some x else None
+                 | _ => None
+                 end
+  | NTupTupNodes => match x with
+                    | Tup l => if forallb (fun b => match b with Tup m => forallb is_nd m | _ => false end) l
+                               then Some x else None
+                    | _ => None
+                    end
   end.
 
 Fixpoint norm_children (ns : list snorm) (ch : list item) : option (list item) :=
@@ -246,6 +258,69 @@ Definition inject_step (o : list item) (e : item * handle) : list item :=
   end.
 Definition inject (M : mapper) (o : list item) : list item := fold_left inject_step M o.
 
+(** The same injection with the comparison Python's tuple operations really perform: [x is k or x == k].
+    The identity shortcut only matters when the element has been updated in place since the mapper was built,
+    which happens in [NestedTransformer] (injection after the visit); only that class uses this version. *)
+Definition ieqb_id (a b : item) : bool :=
+  (is_nd a && is_nd b && (id_of_pre a =? id_of_pre b) && negb (id_of_pre a =? 0)) || ieqb a b.
+
+Section InjectId.
+  Let eq := ieqb_id.
+  Definition mem_g (x : item) (l : list item) : bool := existsb (eq x) l.
+  Fixpoint prefix_eqb_g (g l : list item) : bool :=
+    match g, l with
+    | [], _ => true
+    | x :: g', y :: l' => eq x y && prefix_eqb_g g' l'
+    | _ :: _, [] => false
+    end.
+  Fixpoint rw_scan_g (fuel : nat) (o g subs : list item) : list item :=
+    match fuel with
+    | O => []
+    | S f =>
+        match o with
+        | [] => []
+        | x :: r => if prefix_eqb_g g o then subs ++ rw_scan_g f (skipn (length g) o) g subs
+                    else x :: rw_scan_g f r g subs
+        end
+    end.
+  Definition replace_windowed_g (o g subs : list item) : list item :=
+    match o with
+    | [] => if (2 <=? length g)%nat then [NoneI] else []
+    | _ => rw_scan_g (length o) o g subs
+    end.
+  Fixpoint index_from_g (k : item) (l : list item) (i : nat) : option nat :=
+    match l with
+    | [] => None
+    | x :: r => match i with
+                | O => if eq x k then Some O else option_map S (index_from_g k r O)
+                | S i' => option_map S (index_from_g k r i')
+                end
+    end.
+  Definition inject_handle_g (nodes : list item) (i : nat) (old : item) (new : list item) : list item * nat :=
+    match index_from_g old nodes i with
+    | Some j => (firstn j nodes ++ new ++ skipn (S j) nodes, (j + length new)%nat)
+    | None => (nodes, length nodes)
+    end.
+  Fixpoint inject_loop_g (fuel : nat) (o : list item) (i : nat) (k : item) (new : list item) : list item :=
+    match fuel with
+    | O => o
+    | S f => if mem_g k (skipn i o)
+             then let '(o', i') := inject_handle_g o i k new in inject_loop_g f o' i' k new
+             else o
+    end.
+  Definition inject_step_g (o : list item) (e : item * handle) : list item :=
+    let '(k, h) := e in
+    let o1 := match k with
+              | Tup g => match g with [] => o | _ => replace_windowed_g o g (handle_as_tuple h) end
+              | _ => o
+              end in
+    match h with
+    | HTup new => if mem_g k o1 then inject_loop_g (length o1) o1 0 k new else o1
+    | _ => o1
+    end.
+  Definition inject_g (M : mapper) (o : list item) : list item := fold_left inject_step_g M o.
+End InjectId.
+
 (** * Transformer configuration and state *)
 Inductive tcls := TPlain | TNested | TMasked | TNestedMasked.
 Record cfg := {
@@ -261,7 +336,7 @@ Record cfg := {
 Definition is_masked (c : cfg) : bool :=
   match c_cls c with TMasked | TNestedMasked => true | _ => false end.
 
-(** mutable state of a masked transformer: [self.active], [self.start] *)
+(** mutable state of a masked transformer: [self.active], [self.start] (a set: [remove_eq] removes every equal entry) *)
 Record mstate := { m_active : bool; m_start : list item }.
 
 (** an in-place [_update] of an object that existed before the run: new source status and children *)
@@ -276,7 +351,7 @@ Inductive resl :=
 
 Definition remove_eq (x : item) (l : list item) : list item :=
   (fix go (l : list item) : list item :=
-     match l with [] => [] | y :: r => if ieqb y x then r else y :: go r end) l.
+     match l with [] => [] | y :: r => if ieqb y x then go r else y :: go r end) l.
 
 (** [MaskedTransformer.visit]: update of the active status before dispatch *)
 Definition mask_pre (c : cfg) (o : item) (ms : mstate) : mstate :=
@@ -289,14 +364,19 @@ Definition mask_pre (c : cfg) (o : item) (ms : mstate) : mstate :=
     else {| m_active := (m_active ms && negb (mem o (c_stop c))) || mem o (m_start ms); m_start := m_start ms |} in
   if c_greedy c && mem o (c_stop c) then {| m_active := false; m_start := [] |} else ms1.
 
+(** positional arguments are zipped with the traversable field names of the node that receives them *)
+Definition zip_children (old new : list item) : list item :=
+  firstn (length old) new ++ skipn (length new) old.
+
 (** [Transformer._rebuild]: source invalidation, then in-place update or a new node *)
 Definition inv_src (c : cfg) (src : Z) (children : list item) : Z :=
   if c_invsrc c && (src =? 1) && existsb is_nd (flatten children) then 3 else src.
 
-Definition do_rebuild (c : cfg) (o : item) (pay' : option Z) (children : list item) (ms : mstate) : res :=
+Definition do_rebuild (c : cfg) (o : item) (pay' : option Z) (children0 : list item) (ms : mstate) : res :=
   match o with
-  | Nd id k src pay _ =>
-      let src' := inv_src c src children in
+  | Nd id k src pay old =>
+      let src' := inv_src c src children0 in
+      let children := zip_children old children0 in
       let p := match pay' with Some p => p | None => pay end in
       if c_inplace c then Ok (Nd id k src' p children) true ms [EUpd id src' children] []
       else match mk_node k src' p children with
@@ -323,7 +403,7 @@ Definition id_of (o : item) : Z := match o with Nd i _ _ _ _ => i | _ => 0 end.
 Definition src_of (o : item) : Z := match o with Nd _ _ s _ _ => s | _ => 0 end.
 Definition pay_of (o : item) : Z := match o with Nd _ _ _ p _ => p | _ => 0 end.
 Definition set_children (o : item) (ch : list item) : item :=
-  match o with Nd i k s p _ => Nd i k s p ch | _ => o end.
+  match o with Nd i k s p old => Nd i k s p (zip_children old ch) | _ => o end.
 Definition set_src (o : item) (s : Z) : item :=
   match o with Nd i k _ p ch => Nd i k s p ch | _ => o end.
 
@@ -360,7 +440,7 @@ Section Handlers.
     | TNested =>
         match visit_list (rec pa) l ms with
         | ErrL e => Err e
-        | OkL vs ms1 lg rb => Ok (Tup (strip (inject (c_map c) vs))) false ms1 lg rb
+        | OkL vs ms1 lg rb => Ok (Tup (strip (inject_g (c_map c) vs))) false ms1 lg rb
         end
     | _ =>
         match visit_list (rec pa) (inject (c_map c) l) ms with
@@ -395,7 +475,7 @@ Section Handlers.
             if masked && negb (m_active ms1)
             then Ok (inactive_result vs) false ms2 (lg1 ++ lg2) rb2
             else Ok (set_children o1 vs) same1 ms2
-                    (lg1 ++ lg2 ++ (if same1 then [EUpd (id_of o1) (src_of o1) vs] else [])) rb2
+                    (lg1 ++ lg2 ++ (if same1 then [EUpd (id_of o1) (src_of o1) (zip_children (children_of o1) vs)] else [])) rb2
         end
     end.
 
@@ -433,7 +513,7 @@ Section Handlers.
               | Some ext =>
                   if scoped then
                     let s' := if c_invsrc c then 0 else src_of o in
-                    Ok (set_src (set_children o ext) s') true ms1 (lg ++ [EUpd (id_of o) s' ext]) rb
+                    Ok (set_src (set_children o ext) s') true ms1 (lg ++ [EUpd (id_of o) s' (zip_children (children_of o) ext)]) rb
                   else if c_invsrc c then Err EAttribute
                   else match mk_node (kind_of o) (src_of o) (pay_of o) ext with
                        | Some n => Ok n false ms1 lg rb
@@ -455,7 +535,7 @@ Section Handlers.
               | ErrL e => Err e
               | OkL vs ms2 lg2 rb2 =>
                   Ok (set_children h1 vs) (same1 && (id_of h =? id_of o)) ms2
-                     (lg1 ++ lg2 ++ (if same1 then [EUpd (id_of h1) (src_of h1) vs] else [])) rb2
+                     (lg1 ++ lg2 ++ (if same1 then [EUpd (id_of h1) (src_of h1) (zip_children (children_of h1) vs)] else [])) rb2
               end
           end
         else
@@ -827,11 +907,39 @@ Fixpoint scan (c : cfg) (o : item) (ms0 : mstate) {struct o} : list (Z * Z * boo
 Definition selected (l : list (Z * Z * bool)) : list (Z * Z) :=
   map (fun x => (fst (fst x), snd (fst x))) (filter (fun x => snd x) l).
 
+(** * Which nodes a [Transformer] traversal calls [visit] on *)
+Definition passes (M : mapper) (o : item) : bool :=
+  match mfind M o with
+  | None => true
+  | Some (_, HTup hs) => mem o hs
+  | _ => false
+  end.
+Definition scoped_norm (o : item) : bool :=
+  match o with
+  | Nd _ k _ _ ch =>
+      if kind_scoped k
+      then match norm_children (kind_slots k) ch with Some ch' => list_eqb ideqb ch' ch | None => false end
+      else true
+  | _ => false
+  end.
+Inductive reached (M : mapper) : item -> item -> Prop :=
+| R_self t : reached M t t
+| R_tup l x y : In x (inject M l) -> reached M x y -> reached M (Tup l) y
+| R_nd o x y : scoped_norm o = true -> passes M o = true -> In x (children_of o) -> reached M x y -> reached M o y.
+
 (** * Heap view used by the correspondence: object id -> (source status, children as shallow references) *)
 Fixpoint shal (o : item) : item :=
   match o with
   | Tup l => Tup (map shal l)
   | Nd i k s p ch => if i =? 0 then Nd 0 k s p (map shal ch) else Nd i k 0 0 []
+  | _ => o
+  end.
+
+(** a value of [self.rebuilt] without its children *)
+Fixpoint stub (o : item) : item :=
+  match o with
+  | Tup l => Tup (map stub l)
+  | Nd i k s p _ => Nd i k s p []
   | _ => o
   end.
 
@@ -883,6 +991,23 @@ Definition mapper_items (M : mapper) : list item :=
   flat_map (fun e => fst e :: handle_as_tuple (snd e)) M.
 
 (** the implementation returned [out], left the heap difference [hd] and the [rebuilt] dict [rb] *)
+Definition chk_res (c : cfg) (active : bool) (start : list item) (t : item) (out : item) : bool :=
+  match run c active start t with
+  | Ok it _ _ _ _ => ideqb it out
+  | Err _ => false
+  end.
+Definition chk_heap (c : cfg) (active : bool) (start : list item) (t : item) (hd : list (Z * (Z * list item))) : bool :=
+  match run c active start t with
+  | Ok _ _ _ lg _ => heap_eqb (heap_diff (t :: mapper_items (c_map c) ++ start ++ c_stop c) lg) hd
+  | Err _ => false
+  end.
+Definition chk_reb (c : cfg) (active : bool) (start : list item) (t : item) (rb : list (Z * item)) : bool :=
+  match run c active start t with
+  | Ok _ _ _ _ reb =>
+      list_eqb (fun x y => (fst x =? fst y) && ideqb (snd x) (snd y))
+               (map (fun kv => (id_of (fst kv), stub (snd kv))) (dict_of reb)) rb
+  | Err _ => false
+  end.
 Definition chk_ok (c : cfg) (active : bool) (start : list item) (t : item)
            (out : item) (hd : list (Z * (Z * list item))) (rb : list (Z * item)) : bool :=
   match run c active start t with
@@ -890,7 +1015,7 @@ Definition chk_ok (c : cfg) (active : bool) (start : list item) (t : item)
       ideqb it out &&
       heap_eqb (heap_diff (t :: mapper_items (c_map c) ++ start ++ c_stop c) lg) hd &&
       list_eqb (fun x y => (fst x =? fst y) && ideqb (snd x) (snd y))
-               (map (fun kv => (id_of (fst kv), shal (snd kv))) (dict_of reb)) rb
+               (map (fun kv => (id_of (fst kv), stub (snd kv))) (dict_of reb)) rb
   | Err _ => false
   end.
 
